@@ -30,3 +30,6 @@
 ; reflexivity and transitivity are instantiated by the generator where they are needed (at each
 ; return and at each wrapper call) instead of being asserted as quantified axioms
 (declare-fun errIs (Iface Iface) Bool)
+; C06: the security policy is an arbitrary predicate over names ("every policy")
+(declare-fun allowedFilter (Iface Str) Bool)
+(declare-fun allowedFunction (Iface Str) Bool)
